@@ -975,4 +975,348 @@ Section SIM.
       + apply nth_error_None in En. rewrite (F2_length _ _ _ HF) in En. lia.
     - simpl. eexists; split; eauto. constructor.
   Qed.
+
+  (* ---------------- maps *)
+
+  (* the pair array of header s can be written by the statement started at n0 without being seen by anyone else *)
+  Definition own (n0 : nat) (s : slice) : Prop := n0 <= sid s \/ (slen s = 0 /\ scap s = 0).
+
+  (* m is a map value with pairs l whose storage, if any, is private to the statement started at n0 *)
+  Definition fresh_map (n0 : nat) (h : heap) (m : val) (l : list (Z * val)) : Prop :=
+    match m with
+    | VMapS l' => l' = l
+    | VMapB p => n0 <= p /\ exists s, map_hdr h p = Some s /\ own n0 s /\ slen s <= scap s /\ read_kv h s = Some l
+    | _ => False
+    end.
+
+  Lemma insert_at_length : forall {X} (l : list X) i x, i <= length l -> length (insert_at l i x) = S (length l).
+  Proof.
+    intros. unfold insert_at. rewrite app_length, firstn_length. simpl. rewrite skipn_length. lia.
+  Qed.
+
+  Lemma map_hdr_set : forall h p s h', set_nth h p (CMap s) = Some h' -> map_hdr h' p = Some s.
+  Proof. intros. unfold map_hdr. rewrite (set_nth_same _ _ _ _ H). reflexivity. Qed.
+
+  Lemma read_kv_other : forall h h' s, (forall j, j <> sid s -> True) ->
+    nth_error h' (sid s) = nth_error h (sid s) -> read_kv h' s = read_kv h s.
+  Proof. intros. unfold read_kv. rewrite H0. reflexivity. Qed.
+
+  Lemma hdr_ne_kv : forall h p s l, map_hdr h p = Some s -> read_kv h s = Some l -> p <> sid s.
+  Proof.
+    unfold map_hdr, read_kv. intros h p s l H1 H2 E. subst.
+    destruct (nth_error h (sid s)) as [[| |]|]; discriminate.
+  Qed.
+
+  Lemma big_set_fresh : forall n0 h p s l k v,
+    n0 <= p -> map_hdr h p = Some s -> own n0 s -> slen s <= scap s -> read_kv h s = Some l -> n0 <= length h ->
+    exists h', big_set o h p k v = Ok h' /\ keeps n0 h h' /\ fresh_map n0 h' (VMapB p) (kv_set l k v).
+  Proof.
+    intros n0 h p s l k v Hp Hh Hown Hcap Hr Hn0.
+    pose proof (hdr_ne_kv _ _ _ _ Hh Hr) as Hne.
+    pose proof (map_hdr_lt _ _ _ Hh) as Hplt.
+    pose proof (read_kv_len _ _ _ Hr) as HL.
+    unfold big_set, kv_set. rewrite Hh. simpl. rewrite Hr. simpl.
+    destruct (kv_find l k 0) as [found i] eqn:EF.
+    pose proof (kv_find_bounds _ _ _ _ _ EF) as [Hb1 Hb2]. simpl in Hb1.
+    destruct found.
+    - (* m.kv[i].Value = value *)
+      specialize (Hb2 eq_refl). simpl in Hb2.
+      destruct (kv_find_found _ _ _ _ EF) as [v0 Hv0]. rewrite Nat.sub_0_r in Hv0. rewrite Hv0.
+      assert (Hs : n0 <= sid s) by (destruct Hown as [|[Hz _]]; auto; lia).
+      destruct (store_kv_window h s l i [(k, v)] Hr) as (h' & Hst & _ & Hrd & Ho & Hl); [lia|].
+      rewrite Hst. simpl. exists h'. split; auto. split.
+      + eapply (keeps_of_others n0 h h' (sid s)); eauto.
+      + simpl. split; auto. exists s. splits; auto.
+        * unfold map_hdr. rewrite Ho; auto.
+        * rewrite Hrd by (simpl; lia). f_equal. symmetry. rewrite (set_val_at_splice l i k v0 v Hv0).
+          simpl. now rewrite Nat.add_1_r.
+    - destruct (slen s + 1 <=? scap s) eqn:E1.
+      + (* slices.Insert in place *)
+        apply Nat.leb_le in E1.
+        assert (Hs : n0 <= sid s) by (destruct Hown as [|[Hz Hz']]; auto; lia).
+        destruct (store_kv_window h s l i ((k, v) :: skipn i l) Hr) as (h1 & Hst & Hrd & _ & Ho & Hl); [lia|].
+        rewrite Hst. simpl.
+        destruct (set_nth_some h1 p (CMap (mkslice (sid s) (soff s) (slen s + 1) (scap s)))) as [h2 Hh2]; [lia|].
+        rewrite Hh2. simpl. exists h2. split; auto. split.
+        * eapply keeps_trans; [eapply (keeps_of_others n0 h h1 (sid s)); eauto | eapply keeps_set; eauto].
+        * simpl. split; auto. eexists. splits; [eapply map_hdr_set; eauto| | |]; simpl; auto.
+          -- left. auto.
+          -- unfold read_kv in *. simpl in *. rewrite (set_nth_other _ _ _ _ _ Hh2) by auto.
+             replace (slen s + 1) with (i + length ((k, v) :: skipn i l)); [apply Hrd|].
+             simpl. rewrite skipn_length. lia.
+      + (* moves to a new array *)
+        apply Nat.leb_gt in E1.
+        pose proof (Hgood true (scap s) (slen s + 1)) as Hg.
+        destruct (o true (scap s) (slen s + 1) <? slen s + 1) eqn:E2; [apply Nat.ltb_lt in E2; lia|].
+        simpl.
+        destruct (set_nth_some (h ++ [CKV (insert_at l i (k, v))]) p
+                   (CMap (mkslice (length h) 0 (slen s + 1) (o true (scap s) (slen s + 1))))) as [h2 Hh2];
+          [rewrite app_length; simpl; lia|].
+        rewrite Hh2. simpl. exists h2. split; auto. split.
+        * eapply keeps_trans; [apply (keeps_alloc n0 h (CKV (insert_at l i (k, v)))); auto | eapply keeps_set; eauto].
+        * simpl. split; auto. eexists. splits; [eapply map_hdr_set; eauto| | |]; simpl; auto.
+          -- left. auto.
+          -- unfold read_kv. simpl. rewrite (set_nth_other _ _ _ _ _ Hh2) by lia.
+             rewrite nth_error_app2, Nat.sub_diag by auto. simpl.
+             apply window_some. split.
+             ++ rewrite insert_at_length by lia. lia.
+             ++ simpl. rewrite firstn_all2; auto. rewrite insert_at_length by lia. lia.
+  Qed.
+
+  Lemma map_set_fresh : forall n0 h m l k v, fresh_map n0 h m l -> n0 <= length h ->
+    exists h' m', map_set c o h m k v = Ok (h', m') /\ keeps n0 h h' /\ fresh_map n0 h' m' (kv_set l k v).
+  Proof.
+    intros n0 h m l k v HF Hn0. destruct m; simpl in HF; try contradiction.
+    - subst l0. simpl. unfold small_set, kv_set.
+      destruct (kv_find l k 0) as [found i] eqn:EF.
+      pose proof (kv_find_bounds _ _ _ _ _ EF) as [Hb1 _]. simpl in Hb1.
+      destruct found.
+      + eexists _, _. split; [reflexivity|]. split; [apply keeps_refl|reflexivity].
+      + destruct (msm c <? length l + 1).
+        * unfold new_bigmap. simpl. eexists _, _. split; [reflexivity|]. split.
+          -- eapply keeps_trans; [apply (keeps_alloc n0 h (CKV (insert_at l i (k, v)))); auto|].
+             apply (keeps_alloc n0 (h ++ [CKV (insert_at l i (k, v))])). rewrite app_length. simpl. lia.
+          -- simpl. split; [rewrite app_length; simpl; lia|].
+             eexists. splits.
+             ++ unfold map_hdr. rewrite nth_error_app2 by (rewrite app_length; simpl; lia).
+                rewrite app_length. simpl. replace (length h + 1 - (length h + 1)) with 0 by lia. reflexivity.
+             ++ left. simpl. auto.
+             ++ simpl. lia.
+             ++ unfold read_kv. simpl. rewrite nth_error_app1 by (rewrite app_length; simpl; lia).
+                rewrite nth_error_app2, Nat.sub_diag by auto. simpl.
+                apply window_some. rewrite insert_at_length by lia. split; [lia|].
+                simpl. rewrite firstn_all2; auto. rewrite insert_at_length by lia. lia.
+        * eexists _, _. split; [reflexivity|]. split; [apply keeps_refl|reflexivity].
+    - destruct HF as (Hp & s & Hh & Hown & Hcap & Hr). simpl.
+      destruct (big_set_fresh n0 h p s l k v Hp Hh Hown Hcap Hr Hn0) as (h' & Hb & K & F).
+      rewrite Hb. simpl. eauto.
+  Qed.
+
+  Lemma set_all_fresh : forall n0 kvs h m l, fresh_map n0 h m l -> n0 <= length h ->
+    exists h' m', set_all c o h m kvs = Ok (h', m') /\ keeps n0 h h' /\
+      fresh_map n0 h' m' (fold_left (fun m kv => kv_set m (fst kv) (snd kv)) kvs l).
+  Proof.
+    induction kvs as [|[k v] t IH]; intros h m l HF Hn0; simpl.
+    - eexists _, _. split; [reflexivity|]. split; auto using keeps_refl.
+    - destruct (map_set_fresh n0 h m l k v HF Hn0) as (h1 & m1 & Hs & K1 & F1).
+      rewrite Hs. simpl. pose proof (keeps_len _ _ _ K1).
+      destruct (IH h1 m1 _ F1 ltac:(lia)) as (h2 & m2 & Hs2 & K2 & F2).
+      rewrite Hs2. eexists _, _. split; [reflexivity|]. split; auto. eapply keeps_trans; eauto.
+  Qed.
+
+  Lemma AM_keeps : forall hb h l pl, Forall2 (RKV (A hb)) l pl -> keeps (length hb) hb h -> AM h l pl.
+  Proof.
+    intros. apply AbsM_F2. eapply F2_impl; [|eauto]. intros a b [H1 H2]. split; auto. eapply Abs_keeps; eauto.
+  Qed.
+
+  Lemma fresh_map_abs : forall n0 hb h m l pl,
+    fresh_map n0 h m l -> Forall2 (RKV (A hb)) l pl -> keeps (length hb) hb h -> A h m (PMap pl).
+  Proof.
+    intros n0 hb h m l pl HF HR HK. destruct m; simpl in HF; try contradiction.
+    - subst. constructor. eapply AM_keeps; eauto.
+    - destruct HF as (Hp & s & Hh & Hown & Hcap & Hr). econstructor; eauto. eapply AM_keeps; eauto.
+  Qed.
+
+  Lemma map_read_spec : forall h m pl, A h m (PMap pl) -> exists l, map_read h m = Ok l /\ Forall2 (RKV (A h)) l pl.
+  Proof.
+    intros. inversion H; subst; simpl.
+    - eexists; split; eauto. apply AbsM_F2; auto.
+    - match goal with H : map_hdr h p = Some _ |- _ => rewrite H end. simpl.
+      match goal with H : read_kv h s = Some _ |- _ => rewrite H end. simpl.
+      eexists; split; eauto. apply AbsM_F2; auto.
+  Qed.
+
+  Lemma big_clone_spec : forall h p s l, map_hdr h p = Some s -> read_kv h s = Some l ->
+    exists h' q, big_clone o h p = Ok (h', q) /\ keeps (length h) h h' /\ fresh_map (length h) h' (VMapB q) l.
+  Proof.
+    intros h p s l Hh Hr. unfold big_clone. rewrite Hh. simpl.
+    destruct (go_clone_kv_spec h s l Hr) as (h1 & s1 & Hc & K1 & R1 & L1 & C1 & F1).
+    rewrite Hc. simpl. eexists _, _. split; [reflexivity|].
+    pose proof (keeps_len _ _ _ K1) as Hl1.
+    split.
+    - eapply keeps_trans; eauto. apply (keeps_alloc (length h) h1). auto.
+    - simpl. split; auto. exists s1. splits; auto.
+      + unfold map_hdr. rewrite nth_error_app2, Nat.sub_diag by auto. reflexivity.
+      + destruct F1 as [F1|[-> F1]]; [left; auto|right]. split; auto. rewrite L1.
+        symmetry. apply (read_kv_len _ _ _ Hr).
+      + unfold read_kv. rewrite nth_error_app1 by (eapply read_kv_lt; eauto). apply R1.
+  Qed.
+
+  (* eval.writableMap: a private copy (or the value itself when small) *)
+  Lemma writable_map_spec : forall h m pl, A h m (PMap pl) ->
+    exists h1 m1 l, writable_map c o h m = Ok (h1, m1) /\ keeps (length h) h h1 /\
+      fresh_map (length h) h1 m1 l /\ Forall2 (RKV (A h)) l pl.
+  Proof.
+    intros h m pl HA. inversion HA; subst; simpl.
+    - eexists _, _, l. split; [reflexivity|]. splits; auto using keeps_refl. reflexivity. apply AbsM_F2; auto.
+    - rewrite Hcow.
+      match goal with H1 : map_hdr h p = Some s, H2 : read_kv h s = Some l |- _ =>
+        destruct (big_clone_spec h p s l H1 H2) as (h1 & q & Hc & K1 & F1) end.
+      rewrite Hc. simpl. eexists _, _, l. split; [reflexivity|]. splits; auto. apply AbsM_F2; auto.
+  Qed.
+
+  Lemma map_idx_set_sim : forall h m pl k v pv, A h m (PMap pl) -> A h v pv ->
+    res_rel (VR h) (map_idx_set c o h m k v) (Ok (PMap (kv_set pl k pv))).
+  Proof.
+    intros h m pl k v pv HM HV.
+    destruct (writable_map_spec h m pl HM) as (h1 & m1 & l & Hw & K1 & F1 & R1).
+    unfold map_idx_set. rewrite Hw. simpl.
+    destruct (map_set_fresh (length h) h1 m1 l k v F1 (keeps_len _ _ _ K1)) as (h2 & m2 & Hs & K2 & F2).
+    rewrite Hs. eexists; split; [reflexivity|].
+    assert (K : keeps (length h) h h2) by (eapply keeps_trans; eauto).
+    split; simpl; auto.
+    eapply fresh_map_abs; eauto. apply F2_kv_set; auto.
+  Qed.
+
+  Lemma remove_at_length : forall {X} (l : list X) i, i < length l -> length (remove_at l i) = length l - 1.
+  Proof. intros. unfold remove_at. rewrite app_length, firstn_length, skipn_length. lia. Qed.
+
+  Lemma map_delete_sim : forall h m pl k, A h m (PMap pl) ->
+    exists h' m' ch, map_delete c o h m k = Ok (h', m', ch) /\ keeps (length h) h h' /\
+      match kv_del pl k with
+      | Some pl' => ch = true /\ A h' m' (PMap pl')
+      | None => ch = false
+      end.
+  Proof.
+    intros h m pl k HM.
+    destruct (writable_map_spec h m pl HM) as (h1 & m1 & l & Hw & K1 & F1 & R1).
+    unfold map_delete. rewrite Hw. simpl.
+    pose proof (F2_kv_del _ _ _ k R1) as HD.
+    destruct m1; simpl in F1; try contradiction.
+    - subst l0. destruct (kv_del l k) as [l'|] eqn:E1; destruct (kv_del pl k) as [pl'|] eqn:E2; try contradiction.
+      + eexists _, _, _. split; [reflexivity|]. splits; auto. constructor. eapply AM_keeps; eauto.
+      + eexists _, _, _. split; [reflexivity|]. splits; auto.
+    - destruct F1 as (Hp & s & Hh & Hown & Hcap & Hr).
+      unfold big_delete. rewrite Hh. cbn [bind lift]. rewrite Hr. cbn [bind lift].
+      unfold kv_del in *. rewrite <- (kv_find_rel _ _ _ k 0 R1) in *.
+      destruct (kv_find l k 0) as [found i] eqn:EF.
+      pose proof (kv_find_bounds _ _ _ _ _ EF) as [Hb1 Hb2]. simpl in Hb1.
+      pose proof (read_kv_len _ _ _ Hr) as HL.
+      pose proof (hdr_ne_kv _ _ _ _ Hh Hr) as Hne.
+      pose proof (map_hdr_lt _ _ _ Hh) as Hplt.
+      destruct found.
+      + specialize (Hb2 eq_refl). simpl in Hb2.
+        assert (Hs : length h <= sid s) by (destruct Hown as [|[Hz _]]; auto; lia).
+        destruct (store_kv_window h1 s l i (skipn (S i) l) Hr) as (h2 & Hst & Hrd & _ & Ho & Hl2); [lia|].
+        rewrite Hst. cbn [bind lift].
+        destruct (set_nth_some h2 p (CMap (mkslice (sid s) (soff s) (slen s - 1) (scap s)))) as [h3 Hh3]; [lia|].
+        rewrite Hh3. cbn [bind lift]. eexists _, _, _. split; [reflexivity|].
+        assert (K3 : keeps (length h) h h3).
+        { eapply keeps_trans; [eauto|]. eapply keeps_trans;
+            [eapply (keeps_of_others (length h) h1 h2 (sid s)); eauto | eapply keeps_set; eauto]. }
+        splits; auto.
+        eapply (fresh_map_abs (length h) h h3 (VMapB p) (remove_at l i)); eauto.
+        simpl. split; auto. eexists. splits; [eapply map_hdr_set; eauto| | |]; simpl; auto; try lia.
+        * left. auto.
+        * unfold read_kv in *. simpl in *. rewrite (set_nth_other _ _ _ _ _ Hh3) by auto.
+          replace (slen s - 1) with (i + length (skipn (S i) l)) by (rewrite skipn_length; lia).
+          apply Hrd.
+      + eexists _, _, _. split; [reflexivity|]. splits; auto.
+  Qed.
+
+  Lemma map_append_sim : forall h lm pl rm pr, A h lm (PMap pl) -> A h rm (PMap pr) ->
+    res_rel (VR h) (map_append c o h lm rm)
+            (Ok (PMap (fold_left (fun m kv => kv_set m (fst kv) (snd kv)) pr pl))).
+  Proof.
+    intros h lm pl rm pr HL HR.
+    destruct (map_read_spec _ _ _ HR) as (rl & Hrl & FR).
+    destruct (map_read_spec _ _ _ HL) as (ll & Hll & FL).
+    unfold map_append. rewrite Hrl. simpl.
+    (* in every case: a private map with the left pairs, then Set of each right pair *)
+    assert (X : forall h1 m1, keeps (length h) h h1 -> fresh_map (length h) h1 m1 ll ->
+              res_rel (VR h) (set_all c o h1 m1 rl) (Ok (PMap (fold_left (fun m kv => kv_set m (fst kv) (snd kv)) pr pl)))).
+    { intros h1 m1 K1 F1.
+      destruct (set_all_fresh (length h) rl h1 m1 ll F1 (keeps_len _ _ _ K1)) as (h2 & m2 & Hs & K2 & F2).
+      rewrite Hs. eexists; split; [reflexivity|].
+      assert (K : keeps (length h) h h2) by (eapply keeps_trans; eauto).
+      split; simpl; auto. eapply fresh_map_abs; eauto. apply F2_fold_kv_set; auto. }
+    assert (Y : forall l, l = ll ->
+      res_rel (VR h)
+        (let (h1, id) := alloc h (CKV l) in
+         let (h2, m) := new_bigmap h1 (mkslice id 0 (length l) (length l + length rl)) in set_all c o h2 m rl)
+        (Ok (PMap (fold_left (fun m kv => kv_set m (fst kv) (snd kv)) pr pl)))).
+    { intros l ->. unfold new_bigmap. simpl. apply X.
+      - eapply keeps_trans; [apply (keeps_alloc (length h) h (CKV ll)); auto|].
+        apply (keeps_alloc (length h) (h ++ [CKV ll])). rewrite app_length. simpl. lia.
+      - simpl. split; [rewrite app_length; simpl; lia|]. eexists. splits.
+        + unfold map_hdr. rewrite nth_error_app2 by (rewrite app_length; simpl; lia).
+          rewrite app_length. simpl. replace (length h + 1 - (length h + 1)) with 0 by lia. reflexivity.
+        + left. simpl. auto.
+        + simpl. lia.
+        + unfold read_kv. simpl. rewrite nth_error_app1 by (rewrite app_length; simpl; lia).
+          rewrite nth_error_app2, Nat.sub_diag by auto. simpl.
+          apply window_some. split; [simpl; lia|]. simpl. now rewrite firstn_all. }
+    inversion HL; subst; simpl in Hll.
+    - inversion Hll; subst. destruct (length rl <=? msm c).
+      + apply X; auto using keeps_refl. reflexivity.
+      + apply Y. reflexivity.
+    - match goal with H : map_hdr h p = Some s |- _ => rewrite H in * end. simpl in *.
+      match goal with H : read_kv h s = Some _ |- _ => rewrite H in * end. simpl in *.
+      inversion Hll; subst. apply Y. reflexivity.
+  Qed.
+
+  Lemma map_range_sim : forall h m pl l r, A h m (PMap pl) -> l <= r -> r <= length pl ->
+    exists w, window pl l (r - l) = Some w /\
+      res_rel (VR h) (map_range c h m l r) (Ok (PMap w)).
+  Proof.
+    intros h m pl l r HM Hlr Hr.
+    destruct (map_read_spec _ _ _ HM) as (kv & Hkv & FK).
+    pose proof (F2_length _ _ _ FK) as HLk.
+    assert (Hw : exists w0, window kv l (r - l) = Some w0).
+    { eexists. apply window_some. split; [lia|reflexivity]. }
+    destruct Hw as [w0 Hw0].
+    destruct (F2_window _ _ _ _ _ _ FK Hw0) as (w & Hw & FW).
+    exists w. split; auto.
+    inversion HM; subst; simpl in Hkv.
+    - inversion Hkv; subst. simpl. rewrite Hw0. simpl. eexists; split; [reflexivity|].
+      split; simpl; auto using keeps_refl. constructor. apply AbsM_F2. auto.
+    - match goal with H : map_hdr h p = Some s |- _ => rename H into Hh end.
+      match goal with H : read_kv h s = Some _ |- _ => rename H into Hrk end.
+      match goal with H : wf_hdr _ s |- _ => simpl in H; rename H into Hwf end.
+      rewrite Hh in Hkv. simpl in Hkv. rewrite Hrk in Hkv. simpl in Hkv. inversion Hkv; subst.
+      pose proof (read_kv_len _ _ _ Hrk) as HLs.
+      simpl. rewrite Hh. simpl.
+      destruct (msm c <? r - l).
+      + unfold reslice.
+        replace ((l <=? r) && (r <=? scap s)) with true
+          by (symmetry; apply andb_true_iff; split; apply Nat.leb_le; lia).
+        simpl. unfold new_bigmap. simpl. eexists; split; [reflexivity|]. split; simpl.
+        * apply (keeps_alloc (length h) h). auto.
+        * apply Abs_mapB with (s := mkslice (sid s) (soff s + l) (r - l) (scap s - l)) (l := w0).
+          -- simpl. lia.
+          -- unfold map_hdr. rewrite nth_error_app2, Nat.sub_diag by auto. reflexivity.
+          -- unfold read_kv in *. simpl.
+             rewrite nth_error_app1 by (apply nth_error_Some; destruct (nth_error h (sid s)); congruence).
+             destruct (nth_error h (sid s)) as [[|cl|]|]; try discriminate.
+             rewrite (window_sub cl _ _ _ l (r - l) Hrk) by lia. apply Hw0.
+          -- eapply AM_keeps; eauto. apply (keeps_alloc (length h) h). auto.
+      + rewrite Hrk. simpl. rewrite Hw0. simpl. eexists; split; [reflexivity|].
+        split; simpl; auto using keeps_refl. constructor. apply AbsM_F2. auto.
+  Qed.
+
+  Lemma map_len_abs : forall h m pl, A h m (PMap pl) -> map_len h m = Ok (length pl).
+  Proof.
+    intros. destruct (map_read_spec _ _ _ H) as (l & Hl & F). unfold map_len. rewrite Hl. simpl.
+    now rewrite (F2_length _ _ _ F).
+  Qed.
+
+  Lemma map_rest_sim : forall h m pl, A h m (PMap pl) ->
+    res_rel (VR h) (map_rest c h m) (p_rest (PMap pl)).
+  Proof.
+    intros h m pl HM. unfold map_rest, p_rest. rewrite (map_len_abs _ _ _ HM). simpl.
+    destruct (length pl <=? 1) eqn:E.
+    - eexists; split; [reflexivity|]. split; simpl; auto using keeps_refl. constructor.
+    - apply Nat.leb_gt in E.
+      destruct (map_range_sim h m pl 1 (length pl) HM) as (w & Hw & HR); try lia.
+      rewrite window_skip1 in Hw by auto. inversion Hw; subst. apply HR.
+  Qed.
+
+  Lemma map_get_sim : forall h m pl k, A h m (PMap pl) ->
+    res_rel (A h) (map_get h m k) (p_get (PMap pl) k).
+  Proof.
+    intros h m pl k HM. destruct (map_read_spec _ _ _ HM) as (l & Hl & F).
+    unfold map_get, p_get. rewrite Hl. simpl. eexists; split; [reflexivity|].
+    pose proof (F2_kv_get _ _ _ k F) as HG.
+    destruct (kv_get l k), (kv_get pl k); try contradiction; auto. constructor.
+  Qed.
 End SIM.
